@@ -155,7 +155,7 @@ def nextEntry (w : World) (named : Path) : List Name → Option (Info × List Na
 
 /-! ### GET_DIR_SIZE: afero.Walk over Stat (follows symlinks), summing regular files -/
 
-def dirSizeFuel : Nat := 64
+def dirSizeFuel : Nat := 128
 
 /-- the largest amount a 32-bit signed length field can announce -/
 def maxAnnounce : Nat := 2 ^ 31 - 1
